@@ -11,3 +11,7 @@ reg("C13", "exploration", "DESIGN 5.1 C13",
     "Two-party wire observation in the simulator: every request of the exhaustive grid (stub length 0..320 x verification trailer variants x signature sizes 16/28/60/76 x header signing on/off, both flavours, plus unauthenticated) is decoded by an independent receiver (ref.rpce + independent acceptor that must unseal and verify it) and compared with what the recording security context was handed; GetKey replies from the reference DC sweep every pad_length 0..15 (non-zero fill) and envelope-length residue, and the envelope the client ends up with must equal the one the DC encoded.",
     "trusted: ref.rpce / StubAcceptor as receiver; StubCtx is a stub; the quantifier is a parameter grid - the simulation contributes the second party, not schedules; alloc_hint not judged; misaligned (K%4!=0) reply padding may be rejected but must never yield a wrong envelope",
     T + ": second-party wire observation over an exhaustive parameter grid")
+reg("C09", "fault_enumeration", "DESIGN 5.2 C09",
+    "The simulated clock is set to every tick within +-64 of every L0 boundary 1970..2200, to L1/L2 boundaries across 40 epochs, to PRNG instants and through backward/forward jumps on a shared cache (root-key cache and a cache holding a DC-obtained seed envelope); the key identifier parsed from the emitted blob by ref.cms must equal the exact-integer interval formula.",
+    "trusted: ref.gkdi integer interval formula, ref.cms parser; clock enters the library only through dpapi_ng._client.time",
+    T + ": clock-value enumeration through the time seam")
